@@ -421,6 +421,9 @@ func (s *LinearState) FindCachedRules(ctx *Context, event Map) (map[string]*Rule
 			if err != nil {
 				return nil, err
 			}
+			// The rule is shared from here on (see 'FindRules.Do'),
+			// so it gets its id before anybody else can see it.
+			rule.Id = id
 			acc[id] = rule
 			s.cachedRules[id] = rule
 		}
